@@ -289,14 +289,22 @@ def r17_4(ctx):
             continue
         ctx.analysed(f.qual)
         for i, lp in enumerate(loops):
-            tv = [t.id for t in lp.target.elts] if isinstance(lp.target, ast.Tuple) else []
-            ifs = [s for s in lp.body if isinstance(s, ast.If) and len(tv) == 3 and ast.unparse(s.test).endswith(f"expr_value({tv[2]})")]
-            if not ifs:
+            tv = [t.id for t in lp.target.elts] if isinstance(lp.target, ast.Tuple) and all(isinstance(t, ast.Name) for t in lp.target.elts) else []
+            if len(tv) != 3 or not any(isinstance(x, ast.Call) and ast.unparse(x.func).endswith("expr_value") and x.args and ast.unparse(x.args[0]) == tv[2]
+                                       for x in ast.walk(lp)):
                 continue
             n_loops += 1
             construct = f"{f.short}/range loop #{i + 1}: first active range decides"
-            last = ifs[0].body[-1]
-            if isinstance(last, (ast.Break, ast.Return)):
+            # every way to go on with the next range is a way on which this range's condition was false
+            flb = Flow(f.node, resolver=Resolver(f.node), body=lp.body).run()
+            goes_on = []
+            for kind, node, stt in flb.exits:
+                if kind not in ("fallthrough", "continue"):
+                    continue
+                g = {(x[1], x[2]) for x in stt if x[0] == "g"}
+                if not any(k.endswith(f"expr_value({ast.unparse(lp.iter)}[*][2])") and not pol or (k.endswith(f"expr_value({tv[2]})") and not pol) for k, pol in g):
+                    goes_on.append(sorted(g)[:3])
+            if not goes_on:
                 ctx.ok(construct, f.loc(lp))
             else:
                 ctx.bad(construct, "the search continues after an active range: the *last* active range is used, while the value is evaluated "
